@@ -95,6 +95,12 @@ func (f *Family) URL(pos int, typ string, slot int, kind string) string {
 		return "http://" + host + path
 	case "HTTP":
 		return "HTTP://" + host + path
+	case "same":
+		// the very same URI as the previous distribution point (some CAs repeat it)
+		if typ == "d" && slot > 0 {
+			return f.URL(pos, typ, slot-1, "http")
+		}
+		return "http://" + host + path
 	case "httpc":
 		// distribution points of one certificate that differ in nothing but the
 		// letter case of their path
@@ -140,6 +146,9 @@ func (f *Family) DeltaURL(pos, slot, k int) string {
 
 // BaseRoute returns the network route of a CRL slot's base list.
 func (f *Family) BaseRoute(pos, slot int, kind string) string {
+	if kind == "same" && slot > 0 {
+		return f.BaseRoute(pos, slot-1, "http")
+	}
 	if kind == "httpc" {
 		// slot j: the j-th letter of "base" in upper case (slot 0: "Base.crl")
 		p := []byte("base")
